@@ -1,7 +1,7 @@
 SPECIFICATION XSpec
 CONSTANTS
- MaxTokens = 6
- MaxCtx = 3
+ MaxTokens = 8
+ MaxCtx = 4
  MaxBuf = 3
  QKeySlashIsComment = FALSE
 VIEW CtlView
